@@ -41,6 +41,12 @@ type Beh struct {
 	Variant int    `json:"variant,omitempty"`
 }
 
+// A Name (and an element of a Beh.Path) of the form "@k", k >= 1, is a PLACEHOLDER for the last k
+// elements of the hooks directory's own absolute path (all of them when k exceeds their number, "@99" =
+// the whole absolute path): the node stands for that chain of nested directories and its kind (file, or
+// directory with Children) is the kind of the innermost one.  The absolute path is known only when the
+// case runs (the tree lives in a fresh temporary directory), so Run expands the placeholders; Coq sees
+// the expanded tree (with the random element of the temporary directory renamed, see symTmp).
 type Input struct {
 	Root  string `json:"root"`  // name of the hooks directory itself
 	Nodes []Node `json:"nodes"` // its entries
@@ -56,14 +62,110 @@ type InitObs struct {
 	Error  string   `json:"error,omitempty"` // informational (symbolic paths)
 }
 
-type Observation struct {
-	Paths  []string `json:"paths"`
-	Init   *InitObs `json:"init,omitempty"`
-	Broken string   `json:"broken,omitempty"` // the harness itself could not set the case up
+// IndexEntry: what hm.GetHook(Name) returned: the Path of the hook, "" for nil.
+type IndexEntry struct {
+	Name string `json:"name"`
+	Path string `json:"path"`
 }
 
-// symbolic parent directory shown to Coq instead of the temporary directory
-const symParent = "/w"
+type Observation struct {
+	Paths  []string     `json:"paths"`
+	Init   *InitObs     `json:"init,omitempty"`
+	Index  []IndexEntry `json:"index,omitempty"`  // after Init: GetHook for every name of GetHookNames(), then for the relative path of every discovered file
+	Broken string       `json:"broken,omitempty"` // the harness itself could not set the case up
+	// the input as it was on disk, in the symbolic naming shown to Coq (placeholders expanded)
+	SymParent string `json:"sym_parent,omitempty"`
+	SymNodes  []Node `json:"sym_nodes,omitempty"`
+	SymBeh    []Beh  `json:"sym_beh,omitempty"`
+	Recur     int    `json:"recur,omitempty"` // number of placeholder chains in the tree
+}
+
+// The temporary directory is <os.TempDir()>/verif-c20-<random digits>; towards Coq (and in every
+// recorded string) the random element is renamed to symTmp, everything else is shown as it is.  No
+// generated name starts with "verif-c20-", so the renaming preserves the bytewise order of all paths.
+const symTmp = "verif-c20-T"
+
+// parent directory shown to Coq when the case could not be set up at all
+const symParentFallback = "/w"
+
+var placeholder = regexp.MustCompile(`^@([0-9]+)$`)
+
+// chainOf returns the last k elements of comps ("@k"), nil when name is not a placeholder.
+func chainOf(name string, comps []string) []string {
+	m := placeholder.FindStringSubmatch(name)
+	if m == nil {
+		return nil
+	}
+	k := 0
+	fmt.Sscanf(m[1], "%d", &k)
+	if k < 1 {
+		k = 1
+	}
+	if k > len(comps) {
+		k = len(comps)
+	}
+	return comps[len(comps)-k:]
+}
+
+// expandNodes replaces placeholders by chains of directories named after the elements of the hooks
+// directory's path (comps).  Of two siblings with the same name (a chain can collide with a pool name) the
+// first is kept.
+func expandNodes(ns []Node, comps []string, recur *int) []Node {
+	var out []Node
+	seen := map[string]bool{}
+	for _, n := range ns {
+		e := n
+		if ch := chainOf(n.Name, comps); ch != nil {
+			e = Node{Name: ch[len(ch)-1], Dir: n.Dir, Mode: n.Mode, Children: n.Children}
+			for k := len(ch) - 2; k >= 0; k-- {
+				e = Node{Name: ch[k], Dir: true, Children: []Node{e}}
+			}
+			if recur != nil {
+				*recur++
+			}
+		}
+		if seen[e.Name] {
+			continue
+		}
+		seen[e.Name] = true
+		if e.Dir {
+			e.Children = expandNodes(e.Children, comps, recur)
+		}
+		out = append(out, e)
+	}
+	return out
+}
+
+func expandPath(p string, comps []string) string {
+	var out []string
+	for _, el := range strings.Split(p, "/") {
+		if ch := chainOf(el, comps); ch != nil {
+			out = append(out, ch...)
+		} else {
+			out = append(out, el)
+		}
+	}
+	return strings.Join(out, "/")
+}
+
+func expandBeh(bs []Beh, comps []string) []Beh {
+	// two entries can name the same file once placeholders are expanded ("@1/a" and "hooks/a"): the first
+	// one counts (Coq's beh_code also takes the first), later ones are dropped
+	var out []Beh
+	seen := map[string]bool{}
+	for _, b := range bs {
+		b.Path = expandPath(b.Path, comps)
+		if seen[b.Path] {
+			continue
+		}
+		seen[b.Path] = true
+		out = append(out, b)
+	}
+	return out
+}
+
+// elements of a clean absolute path
+func elements(abs string) []string { return strings.Split(strings.TrimPrefix(abs, "/"), "/") }
 
 var quietOnce sync.Once
 
@@ -127,6 +229,7 @@ func build(dir, rel string, nodes []Node, in *Input, logPath string) error {
 			for k := range in.Beh {
 				if in.Beh[k].Path == r {
 					b = &in.Beh[k]
+					break
 				}
 			}
 			content = script(logPath, b)
@@ -161,15 +264,19 @@ func Run(in Input) Observation {
 		o.Broken = "mkdir: " + err.Error()
 		return o
 	}
-	if err := build(wd, "", in.Nodes, &in, logPath); err != nil {
+	// symbolic naming: the random element of the temporary directory is renamed, consistently everywhere
+	rnd := filepath.Base(tmp)
+	sym := func(p string) string { return strings.ReplaceAll(p, rnd, symTmp) }
+	o.SymParent = sym(parent)
+	o.SymNodes = expandNodes(in.Nodes, elements(sym(wd)), &o.Recur)
+	o.SymBeh = expandBeh(in.Beh, elements(sym(wd)))
+	// the tree on disk: placeholders expanded with the real elements of the hooks directory's path
+	real := in
+	real.Nodes = expandNodes(in.Nodes, elements(wd), nil)
+	real.Beh = expandBeh(in.Beh, elements(wd))
+	if err := build(wd, "", real.Nodes, &real, logPath); err != nil {
 		o.Broken = "build: " + err.Error()
 		return o
-	}
-	sym := func(p string) string {
-		if strings.HasPrefix(p, parent) {
-			return symParent + p[len(parent):]
-		}
-		return p
 	}
 
 	paths, err := utils_file.RecursiveGetExecutablePaths(wd)
@@ -202,21 +309,43 @@ func Run(in Input) Observation {
 			}
 		}
 	}
-	io.Names = append(io.Names, hm.GetHookNames()...)
+	for _, n := range hm.GetHookNames() {
+		io.Names = append(io.Names, sym(n))
+	}
+	// the by-name index: look up every loaded name, then the relative path of every discovered file
+	// (its path without the hooks directory and the separator in front) in load order
+	lookup := func(name string) {
+		e := IndexEntry{Name: sym(name)}
+		if h := hm.GetHook(name); h != nil {
+			e.Path = sym(h.Path)
+		}
+		o.Index = append(o.Index, e)
+	}
+	for _, n := range hm.GetHookNames() {
+		lookup(n)
+	}
+	sorted := append([]string{}, paths...)
+	sort.Strings(sorted)
+	for _, p := range sorted {
+		lookup(strings.TrimPrefix(p, wd+string(os.PathSeparator)))
+	}
 	// a hook that cannot be started cannot write the log line: it counts as asked when Init
 	// reports its --config run as failed
 	if ierr != nil {
 		if m := quoted.FindStringSubmatch(ierr.Error()); m != nil {
-			for _, b := range in.Beh {
-				if b.Code == 1 && b.Variant%5 >= 3 && strings.HasSuffix(m[1], "/"+b.Path) {
+			for _, b := range real.Beh {
+				// (the file this harness wrote for b, not any path that merely ends like it: with the hooks
+				// directory's name repeated below it, "hooks/a" is also the end of <parent>/hooks/a)
+				if b.Code == 1 && b.Variant%5 >= 3 && m[1] == wd+"/"+b.Path {
 					io.Asked = append(io.Asked, sym(m[1]))
+					break
 				}
 			}
 		}
 	}
 	if ierr != nil {
 		msg := ierr.Error()
-		io.Error = strings.ReplaceAll(msg, parent, symParent)
+		io.Error = sym(msg)
 		if len(io.Error) > 300 {
 			io.Error = io.Error[:300]
 		}
@@ -288,17 +417,56 @@ func Render(in Input, obs *Observation, crash string) core.Case {
 		o.Paths = []string{"BROKEN " + o.Broken}
 	}
 	c := core.Case{}
-	behs := core.CoqList(in.Beh, func(b Beh) string { return fmt.Sprintf("(%s, %d)", core.CoqBytes(b.Path), b.Code) })
+	// what Coq sees: the tree as it was on disk (placeholders expanded), in the symbolic naming
+	symParent, nodes, beh := symParentFallback, in.Nodes, in.Beh
+	if o.SymParent != "" {
+		symParent, nodes, beh = o.SymParent, o.SymNodes, o.SymBeh
+	}
+	behs := core.CoqList(beh, func(b Beh) string { return fmt.Sprintf("(%s, %d)", core.CoqBytes(b.Path), b.Code) })
 	initObs := "None"
 	if o.Init != nil {
 		initObs = fmt.Sprintf("(Some (mkInitObs %s %d %s %s))", coqPaths(o.Init.Asked), o.Init.Status, core.CoqBytes(o.Init.Named), coqPaths(o.Init.Names))
 	}
 	inputTerm := fmt.Sprintf("mkInput %s %s %s %s %s", core.CoqBytes(symParent), core.CoqBytes(in.Root),
-		core.CoqList(in.Nodes, coqNode), behs, core.CoqBool(in.Init))
-	c.Coq = fmt.Sprintf("(%s,\n  mkObs %s %s)", inputTerm, coqPaths(o.Paths), initObs)
+		core.CoqList(nodes, coqNode), behs, core.CoqBool(in.Init))
+	index := core.CoqList(o.Index, func(e IndexEntry) string {
+		return fmt.Sprintf("(%s, %s)", core.CoqBytes(e.Name), core.CoqBytes(e.Path))
+	})
+	c.Coq = fmt.Sprintf("(%s,\n  mkObs %s %s %s)", inputTerm, coqPaths(o.Paths), initObs, index)
 	c.JSON = o
 	c.Key = inputTerm
-	files, dirs, depth := countNodes(in.Nodes)
+	files, dirs, depth := countNodes(nodes)
+	if depth > 9 {
+		depth = 9
+	}
+	if dirs > 12 {
+		dirs = 12
+	}
+	if o.Recur > 0 {
+		c.Tags = append(c.Tags, fmt.Sprintf("recur:%d", o.Recur))
+		colliding := false
+		names := map[string]bool{}
+		for _, e := range o.Index {
+			names[e.Name] = true
+		}
+		// a file whose name is what is left of another file's relative path when a chain is cut out of it
+		wdRel := strings.TrimPrefix(symParent+"/"+in.Root, "/")
+		for n := range names {
+			for k := 1; k <= strings.Count(wdRel, "/")+1; k++ {
+				el := strings.Split(wdRel, "/")
+				chain := strings.Join(el[len(el)-k:], "/") + "/"
+				if strings.Contains(n, chain) && names[strings.ReplaceAll(n, chain, "")] {
+					colliding = true
+				}
+				if strings.Contains(n, "/"+chain) && names[strings.ReplaceAll(n, "/"+chain, "")] {
+					colliding = true
+				}
+			}
+		}
+		if colliding {
+			c.Tags = append(c.Tags, "has:sibling-named-like-a-cut-path")
+		}
+	}
 	c.Tags = append(c.Tags, fmt.Sprintf("files:%02d", files/3*3), fmt.Sprintf("dirs:%d", dirs), fmt.Sprintf("depth:%d", depth),
 		fmt.Sprintf("found:%02d", len(o.Paths)/2*2))
 	switch {
@@ -309,22 +477,22 @@ func Render(in Input, obs *Observation, crash string) core.Case {
 	default:
 		c.Tags = append(c.Tags, "root:plain")
 	}
-	if hasName(in.Nodes, func(n Node) bool { return n.Dir && n.Name == "lib" }) {
+	if hasName(nodes, func(n Node) bool { return n.Dir && n.Name == "lib" }) {
 		c.Tags = append(c.Tags, "has:lib-dir")
 	}
-	if hasName(in.Nodes, func(n Node) bool { return n.Dir && strings.HasPrefix(n.Name, ".") }) {
+	if hasName(nodes, func(n Node) bool { return n.Dir && strings.HasPrefix(n.Name, ".") }) {
 		c.Tags = append(c.Tags, "has:hidden-dir")
 	}
-	if hasName(in.Nodes, func(n Node) bool { return !n.Dir && strings.HasPrefix(n.Name, ".") }) {
+	if hasName(nodes, func(n Node) bool { return !n.Dir && strings.HasPrefix(n.Name, ".") }) {
 		c.Tags = append(c.Tags, "has:hidden-file")
 	}
-	if hasName(in.Nodes, func(n Node) bool {
+	if hasName(nodes, func(n Node) bool {
 		e := filepath.Ext(n.Name)
 		return !n.Dir && n.Mode&0o111 != 0 && (e == ".yaml" || e == ".json" || e == ".md" || e == ".txt")
 	}) {
 		c.Tags = append(c.Tags, "has:exec-file-with-excluded-ext")
 	}
-	if hasName(in.Nodes, func(n Node) bool { return !n.Dir && n.Mode&0o111 != 0 && n.Mode&0o100 == 0 }) {
+	if hasName(nodes, func(n Node) bool { return !n.Dir && n.Mode&0o111 != 0 && n.Mode&0o100 == 0 }) {
 		c.Tags = append(c.Tags, "has:group/other-x-only")
 	}
 	if in.Init {
@@ -434,6 +602,128 @@ func (g *gen) initCase() Input {
 	return in
 }
 
+// ---- trees in which the hooks directory's own path occurs again below it ----
+
+func ph(k int) string { return fmt.Sprintf("@%d", k) }
+
+// chain lengths: the hooks directory's own name, two / three trailing elements, the whole absolute path
+var chainLens = []int{1, 2, 3, 99}
+
+// nestedCase: [prefix/](@k/){rep}{b.sh,start.sh} with a file x at every intermediate level, and - next to
+// the directory that holds the outermost chain and at the top - files named like the paths below the chain
+// with the chain cut out ("modb.sh" for "mod/<chain>/b.sh"), so that a wrongly computed relative path
+// collides with the name of another hook.  scenario: 0 = discovery only, 1 = Init, every --config fine,
+// 2 = Init, the innermost b.sh prints an invalid configuration, 3 = Init, the glued sibling's run fails.
+func nestedCase(root string, k, reps int, prefix string, scenario int) Input {
+	inner := d(ph(k), f("b.sh", 0o755), f("start.sh", 0o755))
+	path := ph(k)
+	for i := 1; i < reps; i++ {
+		inner = d(ph(k), inner, f("x", 0o755))
+		path = ph(k) + "/" + path
+	}
+	var in Input
+	glued := "b.sh"
+	if prefix != "" {
+		in = tr(root, d(prefix, inner, f("b.sh", 0o755)), f(prefix+"b.sh", 0o755), f(prefix+"start.sh", 0o755), f(prefix+"x", 0o644), f("b.sh", 0o755))
+		path = prefix + "/" + path
+		glued = prefix + "b.sh"
+	} else {
+		in = tr(root, inner, f("b.sh", 0o755), f("start.sh", 0o755), f("x", 0o644))
+	}
+	switch scenario {
+	case 1:
+		in = withInit(in)
+	case 2:
+		in = withInit(in, Beh{Path: path + "/b.sh", Code: 2, Variant: k})
+	case 3:
+		in = withInit(in, Beh{Path: glued, Code: 1, Variant: reps})
+	}
+	return in
+}
+
+func nestedSystematic(roots []string, ks []int, maxReps int) []Input {
+	var out []Input
+	for _, root := range roots {
+		for _, k := range ks {
+			for reps := 1; reps <= maxReps; reps++ {
+				for _, prefix := range []string{"", "mod"} {
+					for sc := 0; sc < 4; sc++ {
+						out = append(out, nestedCase(root, k, reps, prefix, sc))
+					}
+				}
+			}
+		}
+	}
+	return out
+}
+
+// slots: every list of siblings of a forest (the top level and the children of every directory)
+func slots(ns *[]Node, acc *[]*[]Node) {
+	*acc = append(*acc, ns)
+	for k := range *ns {
+		if (*ns)[k].Dir {
+			slots(&(*ns)[k].Children, acc)
+		}
+	}
+}
+
+// nestedRandom: a random forest with 1-3 chains put at random places: as a directory with a small random
+// forest (or a further chain) below it, wrapped in a directory with a glued sibling, or as a FILE named like
+// the hooks directory.
+func (g *gen) nestedRandom() Input {
+	in := Input{Root: rootPool[g.r.Intn(len(rootPool))], Init: g.r.Chance(50)}
+	in.Nodes = g.forest(1, 1+g.r.Intn(3), true)
+	for n := 1 + g.r.Intn(3); n > 0; n-- {
+		var sl []*[]Node
+		slots(&in.Nodes, &sl)
+		at := sl[g.r.Intn(len(sl))]
+		k := chainLens[g.r.Intn(len(chainLens))]
+		if g.r.Chance(15) {
+			k = 1 + g.r.Intn(6)
+		}
+		leaf := []string{"b.sh", "start.sh", "a", "hook.sh"}[g.r.Intn(4)]
+		below := []Node{f(leaf, 0o755)}
+		if g.r.Chance(40) {
+			below = append(below, g.forest(3, 2, true)...)
+		}
+		if g.r.Chance(35) {
+			below = []Node{d(ph(chainLens[g.r.Intn(len(chainLens))]), below...), f(leaf, 0o755)}
+		}
+		switch {
+		case g.r.Chance(12):
+			*at = append([]Node{f(ph(1), modePool[g.r.Intn(len(modePool))])}, *at...)
+		case g.r.Chance(50):
+			dir := []string{"mod", "001-mod", "a", "sub"}[g.r.Intn(4)]
+			*at = append([]Node{d(dir, d(ph(k), below...)), f(dir+leaf, 0o755)}, *at...)
+		default:
+			*at = append([]Node{d(ph(k), below...), f(leaf, 0o755)}, *at...)
+		}
+	}
+	if in.Init {
+		var fix func(ns []Node)
+		fix = func(ns []Node) {
+			for k := range ns {
+				if ns[k].Dir {
+					fix(ns[k].Children)
+				} else if g.r.Chance(50) {
+					ns[k].Mode = 0o755
+				}
+			}
+		}
+		fix(in.Nodes)
+		if g.r.Chance(50) {
+			var fs []string
+			allFiles(in.Nodes, "", &fs)
+			for _, f := range fs {
+				if g.r.Chance(15) {
+					in.Beh = append(in.Beh, Beh{Path: f, Code: 1 + g.r.Intn(2), Variant: g.r.Intn(12)})
+				}
+			}
+		}
+	}
+	return in
+}
+
 func f(name string, mode int) Node         { return Node{Name: name, Mode: mode} }
 func d(name string, children ...Node) Node { return Node{Name: name, Dir: true, Children: children} }
 func tr(root string, nodes ...Node) Input  { return Input{Root: root, Nodes: nodes} }
@@ -442,6 +732,20 @@ func withInit(in Input, beh ...Beh) Input  { in.Init = true; in.Beh = beh; retur
 // Corpus: witnesses and past failures; runs first.
 func Corpus() []Input {
 	return []Input{
+		// the hooks directory's own path occurs again below it (seeded change C20-5): the whole absolute path
+		// nested under mod/ next to a file named like that path with the chain cut out; the stock layout
+		// hooks/001-mod/hooks/start.sh; the chain directly at the top; a FILE named like the hooks directory
+		withInit(tr("hooks", d("mod", d(ph(99), f("b.sh", 0o755))), f("modb.sh", 0o755))),
+		withInit(tr("hooks", d("001-mod", d(ph(1), f("start.sh", 0o755))), f("001-modstart.sh", 0o755))),
+		tr("hooks", d(ph(99), f("b.sh", 0o755)), f("b.sh", 0o755)),
+		withInit(tr("hooks", d("a", f(ph(1), 0o755)), f(ph(1), 0o755), f("ahooks", 0o755))),
+		withInit(tr("lib", d("mod", d(ph(2), f("b.sh", 0o755)), d(ph(99), f("c.sh", 0o755))), f("modb.sh", 0o755))),
+		// past failure of the harness itself: two un-startable files, <root>/a and <root>/<root>/a - the error for the
+		// first also ENDS like the path of the second
+		withInit(tr("hooks", d(ph(1), f("a", 0o755), f("a.yaml", 0o755)), f("a", 0o755)),
+			Beh{Path: ph(1) + "/a", Code: 1, Variant: 8}, Beh{Path: "a", Code: 1, Variant: 3}),
+		// past failure of the harness itself: two scenario entries for one file (the first counts)
+		withInit(tr("hooks", f("a", 0o755), d(ph(1), f("a", 0o755))), Beh{Path: ph(1) + "/a", Code: 2, Variant: 11}, Beh{Path: "hooks/a", Code: 1, Variant: 8}),
 		// F10 (repaired): the hooks directory itself is named lib / is hidden
 		tr("lib", f("hook.sh", 0o755)),
 		tr(".h", d("a", f("x", 0o755))),
@@ -524,18 +828,28 @@ func Gen(r *core.Rng, tier string) ([]core.In[Input], bool) {
 		ins = append(ins, core.In[Input]{Input: c, Stream: "corpus"})
 	}
 	g := &gen{r: r}
-	nTrees, nInit := 150, 30
+	nTrees, nInit, nNested := 150, 30, 60
+	sysRoots, sysKs, sysReps := []string{"hooks"}, chainLens, 2
 	switch tier {
 	case "thorough":
-		nTrees, nInit = 5000, 600
+		nTrees, nInit, nNested = 5000, 600, 3000
+		sysRoots, sysKs, sysReps = []string{"hooks", "h", "lib", ".h"}, []int{1, 2, 3, 4, 5, 6, 99}, 3
 	case "search":
-		nTrees, nInit = 1500, 150
+		nTrees, nInit, nNested = 1500, 150, 800
+		sysReps = 3
+	}
+	for _, c := range nestedSystematic(sysRoots, sysKs, sysReps) {
+		ins = append(ins, core.In[Input]{Input: c, Stream: "nested-systematic"})
 	}
 	for i := 0; i < nInit; i++ {
 		ins = append(ins, core.In[Input]{Input: g.initCase(), Stream: "init"})
 	}
 	for i := 0; i < nTrees; i++ {
 		ins = append(ins, core.In[Input]{Input: g.tree(), Stream: "random"})
+	}
+	// after the older streams, so that those draw the same cases from the seed as before
+	for i := 0; i < nNested; i++ {
+		ins = append(ins, core.In[Input]{Input: g.nestedRandom(), Stream: "nested-random"})
 	}
 	if tier == "thorough" || tier == "search" {
 		maxNodes := 4
@@ -553,6 +867,7 @@ func Gen(r *core.Rng, tier string) ([]core.In[Input], bool) {
 
 func Extra() map[string]any {
 	return map[string]any{
+		"nested_scope":     "nested-systematic: [mod/](<chain>/){1..reps}{b.sh,start.sh} + a file x per level + siblings named like the paths with the chain cut out; <chain> = the last k elements of the hooks directory's own absolute path, k in 1,2,3,whole (thorough: 1..6,whole; roots hooks,h,lib,.h; reps <= 3), 4 scenarios each (discovery, Init ok, Init with the innermost hook invalid, Init with the glued sibling failing); nested-random: 1-3 chains at random places of a random forest",
 		"exhaustive_scope": "thorough: every forest with <= 4 nodes (files 0644/0755, directories) over the names " + strings.Join(exNames, ",") + " with sibling names distinct, under the roots hooks and lib",
 		"name_pool":        namePool,
 		"mode_pool":        fmt.Sprintf("%o", modePool),
@@ -562,6 +877,6 @@ func Extra() map[string]any {
 
 var Driver = core.Driver[Input, Observation]{
 	Spec: core.Spec{Property: "C20", Imports: []string{"C20_Model", "C20_Spec", "C20_Corr"}, Corr: "C20_Corr", Triggers: nil, ShrinkKey: "nodes",
-		Rule: "directory trees created on disk (depth <= 4, names from a pool with lib, hidden names, excluded and near-excluded extensions, collisions across directories, 13 modes, hooks directory itself named lib/hidden in ~40%); streams: corpus, random (RecursiveGetExecutablePaths only), init (real hook.Manager.Init on bash scripts that log their --config invocation; 65% of them with misbehaving files), exhaustive (thorough); non-trivial = at least one hook discovered and at least one file left out; distinct = distinct input term"},
+		Rule: "directory trees created on disk (depth <= 4, names from a pool with lib, hidden names, excluded and near-excluded extensions, collisions across directories, 13 modes, hooks directory itself named lib/hidden in ~40%); trees in which the hooks directory's own path (last element, trailing elements, whole absolute path) occurs again below it, once or several times, with siblings named like a cut path (streams nested-systematic, nested-random); by-name index looked up after every Init run (GetHook for every loaded name and for the relative path of every discovered file); streams: corpus, random (RecursiveGetExecutablePaths only), init (real hook.Manager.Init on bash scripts that log their --config invocation; 65% of them with misbehaving files), exhaustive (thorough); non-trivial = at least one hook discovered and at least one file left out; distinct = distinct input term"},
 	Gen: Gen, Run: Run, Render: Render, PerShard: 700, Workers: 8, CaseTimout: 30 * time.Second, Extra: Extra,
 }
